@@ -21,10 +21,17 @@ Lower      == [n \in Ifaces |-> CASE n = "FooBar" -> "foobar" [] n = "barBaz" ->
 Upper      == [n \in Ifaces |-> CASE n = "FooBar" -> "FOOBAR" [] n = "barBaz" -> "BARBAZ" [] n = "%O%mega" -> "%O%MEGA" [] n = "_hid" -> "_HID"]
 FirstLower == [n \in Ifaces |-> CASE n = "FooBar" -> "fooBar" [] n = "barBaz" -> "barBaz" [] n = "%O%mega" -> "%o%mega" [] n = "_hid" -> "_hid"]
 Snake      == [n \in Ifaces |-> CASE n = "FooBar" -> "foo_bar" [] n = "barBaz" -> "bar_baz" [] OTHER -> UNSPECVAL]
+FirstUpper == [n \in Ifaces |-> CASE n = "FooBar" -> "FooBar" [] n = "barBaz" -> "BarBaz" [] n = "%O%mega" -> "%O%mega" [] n = "_hid" -> "_hid"]
+Kebab      == [n \in Ifaces |-> CASE n = "FooBar" -> "foo-bar" [] n = "barBaz" -> "bar-baz" [] OTHER -> UNSPECVAL]
+\* operands chosen so that each function differs from its nearest neighbour on at least one interface name:
+\*   trimSuffix "za" / trimPrefix "ab" leave every name alone, trimRight "za" / trimLeft "ab" (cutsets) would not
+\*   (barBaz -> barB / rBaz); replace "/" "_" 1 differs from replaceAll on paths with two or more slashes
 TrimBaz    == [n \in Ifaces |-> CASE n = "barBaz" -> "bar" [] OTHER -> n]          \* trimSuffix "Baz"
 
 PathUnderscore(d) == IF Len(d) = 1 THEN "example.com_w" ELSE "example.com_w_" \o
                        (IF Len(d) = 2 THEN d[2] ELSE d[2] \o "_" \o d[3])
+
+PathUnderscore1(d) == IF Len(d) = 1 THEN "example.com_w" ELSE "example.com_w/" \o L!JoinSegs(Tail(d))
 
 ProbeTemplate == "file://" \o L!RootStr \o "/probe.templ"
 
@@ -39,7 +46,10 @@ Bindings(d, n, tmpl, configDir, ifaceDirRel) ==
    InterfaceName__trimBaz |-> TrimBaz[n],
    Mock__lower |-> "mock",
    SrcPackagePath__replSlash |-> PathUnderscore(d),
-   InterfaceFile__base |-> L!SrcFile, InterfaceFile__baseTrimGo |-> "svc",
+   InterfaceName__firstUpper |-> FirstUpper[n], InterfaceName__kebabcase |-> Kebab[n],
+   InterfaceName__trimSufZa |-> n, InterfaceName__trimPreAb |-> n,
+   SrcPackagePath__repl1 |-> PathUnderscore1(d),
+   InterfaceFile__base |-> L!SrcFile(d), InterfaceFile__baseTrimGo |-> L!SrcStem(d),
    InterfaceDir__dir |-> L!Abs(L!Parent(d)), InterfaceDir__base |-> L!Last(d)]
 
 DocData(l, d, n, tmpl)  == Bindings(d, n, tmpl, L!DocConfigDir(l), L!DocIfaceDirRel(l, d))
@@ -66,7 +76,7 @@ Base(tag) ==
    schema     |-> <<Var("Template"), Lit(".schema.json")>>]
 
 \* --- binding family: every documented variable, one layout-sensitive variable per shape -----------------
-BindingIds == {"B0", "B1", "B2", "B3", "B4", "B5", "B6"}
+BindingIds == {"B0", "B1", "B2", "B3", "B4", "B5", "B6", "B7"}
 BindingShape(sid, tag) ==
   CASE sid = "B0" -> Base(tag)
     [] sid = "B1" -> [Base(tag) EXCEPT !.dir = <<Var("ConfigDir"), Lit("/out/" \o tag)>>]
@@ -81,6 +91,10 @@ BindingShape(sid, tag) ==
                                       !.pkgname = <<Pipe("InterfaceName", "lower")>>,
                                       !.structname = <<Pipe("Mock", "lower"), Lit("S"), Pipe("InterfaceName", "firstLower"),
                                                        Pipe("InterfaceName", "trimBaz"), Pipe("InterfaceName", "upper")>>]
+    [] sid = "B7" -> [Base(tag) EXCEPT !.dir = <<Lit("out/" \o tag \o "/"), Pipe("SrcPackagePath", "repl1")>>,
+                                      !.filename = <<Pipe("InterfaceName", "kebabcase"), Lit("_"), Pipe("InterfaceFile", "baseTrimGo"), Lit(".go")>>,
+                                      !.pkgname = <<Pipe("InterfaceName", "trimPreAb"), Lit("_"), Pipe("InterfaceName", "trimSufZa")>>,
+                                      !.structname = <<Pipe("InterfaceName", "firstUpper"), Lit("Of"), Pipe("InterfaceFile", "base")>>]
 
 \* --- lagging family: one parameter keeps changing for three passes after all the others are stable --------
 LagIds == {"L0", "L1", "L2", "L3", "L4"}
@@ -148,7 +162,7 @@ ResShape(s, f, p, d, t, tag) ==
 -----------------------------------------------------------------------------
 (* Layout ids and families of layouts *)
 LayoutId(l) == DirKey(l.cwd) \o "." \o l.mode \o "." \o DirKey(l.cfgdir) \o "." \o
-               (IF l.decoy = L!NoDecoy THEN "n" ELSE DirKey(l.decoy))
+               (IF l.decoy = L!NoDecoy THEN "n" ELSE DirKey(l.decoy) \o (IF l.dname = ".mockery.yaml" THEN "a" ELSE ""))
 
 \* layouts where the working directory is the config directory (no known deviation)
 \* (kept although no deviation is known any more: the reference-graph families need only a few layouts)
@@ -163,7 +177,7 @@ MkCase(l, d, n, sid, tmpl, vs) ==
    impl |-> ImplData(l, d, n, tmpl),
    meta |-> [lid |-> LayoutId(l), cwd |-> L!Abs(l.cwd), mode |-> l.mode, cfgdir |-> L!Abs(l.cfgdir),
              cfgname |-> L!CfgFileName(l.mode), param |-> L!ConfigParam(l), envparam |-> L!EnvParam(l),
-             decoy |-> IF l.decoy = L!NoDecoy THEN "" ELSE L!Abs(l.decoy), decoyname |-> L!DecoyName(l.mode),
+             decoy |-> IF l.decoy = L!NoDecoy THEN "" ELSE L!Abs(l.decoy), decoyname |-> L!DecoyName(l), srcfile |-> L!SrcFile(d),
              decoy_may_win |-> L!DecoyMayWin(l),
              iface |-> n, ifdir |-> L!Abs(d), pkgpath |-> L!PkgPath(d), pkgname |-> L!PkgName(d),
              tmpl |-> tmpl, sid |-> sid, tag |-> sid \o IfKey(n) \o DirKey(d),
@@ -242,5 +256,8 @@ ASSUME \E l \in L!AllLayouts : l.mode \in L!SearchModes /\ l.cfgdir # l.cwd
 ASSUME \E l \in L!AllLayouts : l.mode \in L!ExplicitModes /\ l.cfgdir # l.cwd
 ASSUME \E l \in L!AllLayouts : \E d \in L!ModDirs : L!DocIfaceDirRel(l, d) = L!UNSPEC
 ASSUME \E l \in L!AllLayouts : L!DecoyMayWin(l)
+\* a differently named config file further up than the real one, both ways round
+ASSUME \E l \in L!AllLayouts : l.mode = "search_yml" /\ l.decoy # L!NoDecoy /\ l.dname = ".mockery.yaml" /\ l.cfgdir = l.cwd
+ASSUME \E l \in L!AllLayouts : l.mode = "search_yaml" /\ l.decoy # L!NoDecoy /\ l.dname = ".mockery.yml" /\ l.cfgdir # l.cwd
 ASSUME \E l \in L!AllLayouts : l.mode \in L!FlagEnvModes /\ l.decoy = l.cwd /\ l.cfgdir # l.cwd
 =============================================================================
